@@ -61,7 +61,7 @@ def split_runs(out):
         if line.startswith("BEGIN "):
             cur, buf = line.split()[1], []
         elif line.startswith("DONE ") and cur is not None:
-            res[cur] = ("\n".join(buf), line.split()[2])
+            res[cur] = ("\n".join(buf), " ".join(line.split()[2:]))
             cur = None
         elif cur is not None:
             buf.append(line)
@@ -87,6 +87,26 @@ def base_dates(sc, text):
     return sorted(set(e.clk for e in evs if e.kind in ("Q", "R")))
 
 
+def crash_key(status, err):
+    """Stable class of a crashed run: sanitizer error kind + first SimGrid frame, or the exit status."""
+    pid = status.split("pid=")[-1] if "pid=" in status else None
+    lines = err.splitlines()
+    for i, l in enumerate(lines):
+        if "ERROR: AddressSanitizer" in l or "runtime error:" in l:
+            if pid and "==%s==" % pid not in l and "runtime error:" not in l:
+                continue
+            kind = l.split("AddressSanitizer:")[1].split()[0] if "AddressSanitizer:" in l else "ubsan"
+            frame = "?"
+            for m in lines[i + 1:i + 40]:
+                if " in simgrid::" in m:
+                    frame = m.split(" in ")[1].split("(")[0].replace("simgrid::", "").replace("kernel::", "").replace("activity::", "").strip()
+                    break
+            return "C10:sanitizer:%s:%s" % (kind, frame), "\n".join(lines[i:i + 14])
+    st = status.split()[0].replace("=", "")
+    tail = [l for l in lines if l.strip()][-3:]
+    return "C10:crash:%s" % st, " | ".join(tail)[-600:]
+
+
 def fault_class(sc, run):
     return "+".join("%s%s" % (f["kind"], "-on" if f["t_on"] >= 0 else "") for f in run["faults"])
 
@@ -98,10 +118,9 @@ def judge_run(ctx, fl, sc, run, text, status, err):
     if status == "timeout" or status == "truncated":
         ctx.inconclusive("fault run watchdog")
         return False
-    if status != "rc=0":
-        reps = proc.sanitizer_reports(err)
-        ctx.violation("C10:crash:%s:path=%s:%s" % (status.replace("=", ""), run["path"], fault_class(sc, run)),
-                      "the fault run died (%s) %s; log tail: %r; stderr tail: %r" % (status, reps[:1], text.splitlines()[-6:], err[-600:]), w)
+    if not status.startswith("rc=0"):
+        key, rep = crash_key(status, err)
+        ctx.violation(key, "the fault run died (%s): %s\nlog tail: %r\nflavour %s, scenario + run:\n%s" % (status, rep, text.splitlines()[-8:], fl, gen.to_text(sc, [run])), w)
         return False
     bad = []
 
@@ -130,7 +149,7 @@ def process_scenario(ctx, i, sc, directed_runs=None):
         ctx.inconclusive("base run watchdog")
         return
     runs = split_runs(res.out)
-    if "base" not in runs or runs["base"][1] != "rc=0":
+    if "base" not in runs or not runs["base"][1].startswith("rc=0"):
         ctx.violation("C10:crash:base", "the fault-free run died: %r %r" % (runs.get("base", ("", "?"))[1], res.err[-600:]), {"flavour": "hooks", "scenario": sc,
                                                                                                                        "run": {"id": "base", "path": "N", "faults": []}})
         return
